@@ -188,11 +188,11 @@ example : redact (Buffer.init.run (exOps [0x61, 0x6C] ([0x70] ++ startB ++ [0x0A
 /-- What a low observer sees of a print call: how it ended and, on success, `Redact()` of the result. -/
 def Res.redacted : Res → Option (Option (List Byte))
   | .ok p => some (some (redact p.buf.redactableBytes))
-  | .panic => some none
+  | .panic _ _ => some none
   | .fuel => none
   | .unsupported => none
 
-theorem redacted_eq_of_RR {ov0 : Override} {r1 r2 : Res} (h : RR ov0 r1 r2) : r1.redacted = r2.redacted := by
+theorem redacted_eq_of_RR {pub : Nat → Prop} {ov0 : Override} {r1 r2 : Res} (h : RR pub ov0 r1 r2) : r1.redacted = r2.redacted := by
   cases r1 <;> cases r2 <;> simp only [RR] at h <;> try (exact h.elim)
   · simp only [Res.redacted]
     rw [redact_eq_of_brel _ _ h.1.b]
